@@ -254,6 +254,8 @@ class Interp:
                 base = None
             if isinstance(base, list) and all(isinstance(x, int) and 0 <= x < 256 for x in base):
                 return (True, bytes(base).decode(*[self.value(a, env) for a in n.args]))
+            if isinstance(base, (bytes, bytearray)):        # (not evaluated twice: the receiver may be a stream read of a model)
+                return (True, bytes(base).decode(*[self.value(a, env) for a in n.args]))
         if self.resolver is not None and self.depth < 3:
             callee = self.resolver(n)
             if callee is not None:
@@ -662,6 +664,10 @@ class Interp:
                         tgt.remove(args[0])
                     elif fn.attr == 'sort' and isinstance(tgt, list) and not v.args and not v.keywords:
                         tgt.sort()
+                    elif fn.attr == 'reverse' and isinstance(tgt, list) and not v.args and not v.keywords:
+                        tgt.reverse()
+                    elif fn.attr == 'pop' and isinstance(tgt, list) and len(args) <= 1 and all(isinstance(a, int) for a in args) and tgt:
+                        tgt.pop(*args)
                     elif fn.attr == 'clear':
                         tgt.clear()
                     else:
